@@ -30,7 +30,7 @@ import (
 // configuration the admin calls left behind ("currently configured"), nothing of its history.
 
 type HOp struct {
-	K   string // store | rotate | rename | remove
+	K   string // store | rotate | rename | remove | reload (ReloadAdminResources) | restart (new authority on the same database)
 	Ty  string `json:",omitempty"` // store: jwk | x5c
 	N   string // provisioner name
 	To  string `json:",omitempty"` // rename: new name
@@ -105,7 +105,7 @@ func runHistory(keys *hKeys, hc *HCase) (line, res string, ok bool) {
 	if err != nil {
 		panic(err)
 	}
-	defer ca.Close()
+	defer func() { ca.Close() }()
 	ctx := authority.NewContext(context.Background(), ca.Auth)
 	var cur []*managed
 	find := func(name string) *managed {
@@ -150,6 +150,17 @@ func runHistory(keys *hKeys, hc *HCase) (line, res string, ok bool) {
 			if ca.Auth.UpdateProvisioner(ctx, lp) == nil {
 				*m = nu
 			}
+		case "reload":
+			if err := ca.Auth.ReloadAdminResources(ctx); err != nil {
+				panic(err)
+			}
+		case "restart":
+			ca2, err := ca.Restart()
+			if err != nil {
+				panic(err)
+			}
+			ca = ca2
+			ctx = authority.NewContext(context.Background(), ca.Auth)
 		case "remove":
 			m := find(op.N)
 			if m == nil {
@@ -187,6 +198,7 @@ func runHistory(keys *hKeys, hc *HCase) (line, res string, ok bool) {
 	// the token
 	t := hc.Tok
 	key := ((t.Key % hPool) + hPool) % hPool
+	defaultKey := t.Key < 0 && t.Ty != "x5c" // the migrated provisioner "jwk" of the configuration file
 	now := time.Now()
 	claims := map[string]any{"iss": t.Name, "sub": "host.example.com", "sans": []string{"host.example.com"}, "jti": must(randutil.Hex(16)),
 		"iat": now.Unix(), "nbf": now.Unix() - 1, "exp": now.Unix() + 300}
@@ -203,6 +215,10 @@ func runHistory(keys *hKeys, hc *HCase) (line, res string, ok bool) {
 		claims["aud"] = audURL(fixture.DNSName, t.TokOp, "")
 		so.WithHeader("kid", keys.jwks[((t.Kid%hPool)+hPool)%hPool].KeyID)
 		sk = keys.jwks[key].Key
+		if defaultKey {
+			so.WithHeader("kid", ca.JWK.KeyID)
+			sk = ca.JWK.Key
+		}
 	}
 	signer := must(jose.NewSigner(jose.SigningKey{Algorithm: jose.ES256, Key: sk}, so))
 	token := must(jose.Signed(signer).Claims(claims).CompactSerialize())
@@ -231,6 +247,9 @@ func genHistory(r *c.Rng) *HCase {
 		default:
 			hc.Ops = append(hc.Ops, HOp{K: "store", Ty: c.Pick(r, []string{"jwk", "x5c"}), N: c.Pick(r, hNames), Key: r.Intn(hPool)})
 		}
+		if r.Chance(1, 5) {
+			hc.Ops = append(hc.Ops, HOp{K: c.Pick(r, []string{"reload", "restart"})})
+		}
 	}
 	op := c.Pick(r, []string{"sign", "sign", "revoke", "sshsign", "sshrevoke"})
 	if ty == "x5c" && op == "sshrevoke" {
@@ -243,6 +262,9 @@ func genHistory(r *c.Rng) *HCase {
 	}
 	if r.Chance(1, 8) {
 		hc.Tok.Op = c.Pick(r, ops)
+	}
+	if r.Chance(1, 10) { // the provisioner that came from the configuration file
+		hc.Tok = HTok{Ty: "jwk", Name: "jwk", Key: -1, Kid: -1, TokOp: op, Op: op}
 	}
 	return hc
 }
@@ -263,6 +285,8 @@ func historyCorner() []*HCase {
 						&HCase{Ops: []HOp{store, {K: "rotate", N: "alpha", Key: 1}, {K: "rotate", N: "alpha", Key: 0}}, Tok: tok},
 						&HCase{Ops: []HOp{store, {K: "rotate", N: "alpha", Key: 1}, {K: "rename", N: "alpha", To: "beta"}}, Tok: tok},
 						&HCase{Ops: []HOp{store, {K: "remove", N: "alpha"}, {K: "store", Ty: ty, N: "alpha", Key: 1}}, Tok: tok},
+						&HCase{Ops: []HOp{store, {K: "rotate", N: "alpha", Key: 1}, {K: "restart"}}, Tok: tok},
+						&HCase{Ops: []HOp{store, {K: "rename", N: "alpha", To: "beta"}, {K: "reload"}}, Tok: tok},
 					)
 				}
 			}
